@@ -2,6 +2,8 @@
 import json, sys
 pid, wt = sys.argv[1], sys.argv[2]
 variant = sys.argv[3] if len(sys.argv) > 3 else ""
+if variant.startswith("@"):
+    variant = json.load(open(variant[1:])).get(pid, "")
 props = {json.loads(l)["id"]: json.loads(l) for l in open("/verif/properties.jsonl")}
 p = props[pid]
 print(f"""You are helping to evaluate a verification effort for the Python library scikit-hep/pyhf (a pure-Python HistFactory statistical-model library). Your job is to play the role of a developer who introduces a subtle regression.
